@@ -140,6 +140,20 @@ PLAIN_EXPRS = [
     ('2.0', "string-join(('a', 'b'), '-')"), ('2.0', "matches('aB', '\\p{Lu}')"), ('2.0', "2.5 * 1.30"),
     ('3.0', "format-number(1234.5, '#,##0.00')"), ('2.0', "xs:decimal(1e0 div 3)"), ('2.0', "'a' lt 'b'"),
     ('2.0', "count(//a)"), ('2.0', "1.0000000000000000000000000001 * 3"), ('3.0', "round(2.675, 2)"),
+    # decimals with more digits than the default context precision: every numeric code path that may be
+    # tempted to widen the (thread-global) decimal context
+    ('2.0', "round-half-to-even(12345678901234567890123.4567895, 6)"),
+    ('2.0', "round-half-to-even(1234567890123456789012345678901234.5)"),
+    ('2.0', "round(1234567890123456789012345678901234.5)"), ('3.0', "round(12345678901234567890123456789.125, 2)"),
+    ('3.0', "round(123456789012345678901234567890, -3)"), ('2.0', "123456789012345678901234567890.5 idiv 7"),
+    ('2.0', "123456789012345678901234567890.5 mod 7"), ('2.0', "123456789012345678901234567890.5 div 3"),
+    ('2.0', "123456789012345678901234567890.5 * 1.5"), ('2.0', "abs(-12345678901234567890123456789012345.6)"),
+    ('2.0', "floor(12345678901234567890123456789012345.6)"), ('2.0', "ceiling(12345678901234567890123456789012345.6)"),
+    ('2.0', "avg((123456789012345678901234567890.1, 2))"), ('2.0', "sum((123456789012345678901234567890.1, 0.9))"),
+    ('2.0', "xs:integer(1234567890123456789012345678901234.9)"), ('2.0', "xs:decimal(1e40)"),
+    ('2.0', "string(1234567890123456789012345678901234.5)"), ('2.0', "xs:dayTimeDuration('PT0.000001S') * 1234567890123"),
+    ('3.0', "format-number(12345678901234567890123456789012.5, '#.0')"),
+    ('2.0', "seconds-from-dateTime(xs:dateTime('2000-01-01T00:00:01.123456789012345678901234567890'))"),
 ]
 ENV_EXPRS = [
     "environment-variable('%s')" % CANARY_NAME, "available-environment-variables()", "environment-variable('PATH')",
@@ -1291,17 +1305,40 @@ def jobs(tier, seed):
     for chk, (shards, n) in plan.items():
         for i in range(shards):
             out.append({'check': chk, 'shard': i, 'n': n, 'seed': derive_seed(seed, 'C19', chk, i)})
+    # complete sweep of the state-sensitive plain expressions (every expression x api x decimal precision):
+    # sampled histories reach each of them only a few times per run
+    out.append({'check': 'history', 'sweep': 'plain'})
     return out
+
+
+def _sweep_cases():
+    for prec in (28, 40):
+        for api in ('select', 'selector', 'token'):
+            for lo in range(0, len(PLAIN_EXPRS), 8):
+                steps = [{'api': api, 'ver': '3.1', 'k': 'plain', 'i': i}
+                         for i in range(lo, min(lo + 8, len(PLAIN_EXPRS)))]
+                yield {'cfg': {'lc': 'C', 'prec': prec, 'lxml': False}, 'steps': steps, 'fault': 0}
 
 
 def run_job(job, rec: Recorder):
     chk = job['check']
     jd = _JUDGES[chk]
+    if job.get('sweep'):
+        for case in _sweep_cases():
+            rec.discs_of(chk, case, jd(case, rec))
+            rec.cls('history:plain-sweep')
+        return
     hyp_collect(_STRATS[chk], lambda case: rec.discs_of(chk, case, jd(case, rec)), job['n'], job['seed'], rec)
 
 
 def shrink_job(job, bucket, budget):
     chk = job['check']
+    if job.get('sweep'):
+        for case in _sweep_cases():
+            for d in _JUDGES[chk](case):
+                if d.bucket == bucket:
+                    return case, d
+        return None
     return hyp_shrink(_STRATS[chk], _JUDGES[chk], bucket, job['n'], job['seed'], min(budget, 60))
 
 
